@@ -145,7 +145,8 @@ Section Rig.
              (111, match r with
                    | RSlot i => i <? nslots
                    | RField p j => match heap m !! p with
-                                   | Some x => (j <? length (o_fields x)) && negb (is_b BNotYet x) && negb (is_v VDropping x)
+                                   | Some x => (j <? length (o_fields x)) && negb (is_b BNotYet x) && negb (is_v VDropping x) && negb (is_v VUninit x)
+                                               && implb (inD m p) (is_v VDropped x)
                                    | None => false end
                    end);
              (112, match read_loc r m with Some t => own_okb m t | None => true end)]
@@ -194,6 +195,14 @@ Section Rig.
                  && box_eqb (o_box x') (o_box x) && implb (inD m' o) (inD m o)));
         (216, implb (negb (marked x) && negb (is_b BFreed x')) (negb (marked x')));
         (218, implb (notex && is_v VDropping x') (is_v VDropping x));
+        (219, implb (notex && is_v VUninit x && is_alloc x)
+                (is_v VUninit x' && is_alloc x' && (if decide (o_fields x' = o_fields x) then true else false)
+                 && (if decide (o_wfields x' = o_wfields x) then true else false)
+                 && (if decide (o_cleaner x' = o_cleaner x) then true else false)));
+        (209, implb (is_v VUninit x') (is_v VUninit x));
+        (207, implb (inD m o && notex && negb (is_v VDropped x'))
+                ((if decide (o_fields x' = o_fields x) then true else false)
+                 && (if decide (o_cleaner x' = o_cleaner x) then true else false)));
         (217, implb (notex && is_alloc x && prot c m o x)
                 (is_alloc x' && vst_eqb (o_vst x') (o_vst x) && implb (inD m' o) (inD m o)
                  && implb (marked x && st_collecting m) (mark_eqb (h_mark (o_hdr x')) (h_mark (o_hdr x)))))
@@ -204,7 +213,9 @@ Section Rig.
     match r with
     | ONormal | OPanic =>
       codes [(200, Bool.eqb (st_collecting m') (st_collecting m));
+             (205, if decide (wparam m' = wparam m) then true else false);
              (201, forallb (fun o => inD m' o) (dead m));
+             (204, implb (st_collecting m) (forallb (fun o => inD m o) (dead m')));
              (202, implb (k_weak K) (forallb (fun o => implb (undropped m' o) (undropped m o)) (dead m')));
              (203, match r with
                    | ONormal => forallb (fun o => implb (negb (inD m o))
